@@ -1,6 +1,8 @@
 import Iauthd.Proto.Reload17
 import Iauthd.Proto.Deliver
 import Iauthd.Proto.Reload17b
+import Iauthd.Proto.Rules17
+import Iauthd.Proto.SortSec
 import Iauthd.Proto.Table
 /-
   Property C17 — "A reload reaches the decision modules" (model part).  The observable
@@ -180,6 +182,185 @@ theorem C17_reloads_fresh (s0 s0' : State) (h0 : s0.svcs = []) (h0' : s0'.svcs =
   have a := (C17_reloads secs _ first (C17_reflects_start s0 h0 first hf) hf hs).2.2 name t
   have c := (C17_reflects_start s0' h0' _ hlast).2.2 name t
   rw [a, c]
+
+/-! ### for every file -/
+
+/-- what a module is handed of a file's section is a good section: the configuration set holds one
+    node per key, in `conf_object_cmp` order (`sortSection_distinct`) -/
+theorem GoodSec_sortSection (file : List CNode) (h : ∀ n ∈ file, NoNul n.name) : GoodSec (sortSection file) :=
+  sortSection_distinct file h
+
+theorem Reflects.congr {s s' : State} {live : List CNode} (h : Reflects s live) (e : s'.svcs = s.svcs) : Reflects s' live := by
+  unfold Reflects Has at *
+  rw [e]; exact h
+
+/-- **C17, service table, one reload as the daemon performs it** (`applyConfig`): a daemon with the
+    xquery module whose table reflects the live section - nobody waiting - reflects the new file's
+    section afterwards, for every new file whose names are C strings -/
+theorem C17_services_load (s : State) (live new : Config) (hx : s.hasXq = true) (h : Reflects s live.xq)
+    (hl : GoodSec live.xq) (hn : ∀ n ∈ new.xq, NoNul n.name) :
+    Reflects (applyConfig s live new false).1 (applyConfig s live new false).2.xq ∧
+    GoodSec (applyConfig s live new false).2.xq := by
+  have hg : GoodSec (mergeSection live.xq new.xq) := GoodSec_sortSection new.xq hn
+  refine ⟨?_, hg⟩
+  have h0 : Reflects ({ s with timeout := new.timeout } : State) live.xq := h.congr rfl
+  have h1 := C17_reflects_reload { s with timeout := new.timeout } live.xq (mergeSection live.xq new.xq) h0 hl hg
+  unfold applyConfig
+  dsimp only
+  rw [if_pos (show ({ s with timeout := new.timeout } : State).hasXq = true from hx)]
+  split
+  · exact h1.congr rfl
+  · exact h1
+
+/-- **… and any number of them from a fresh start**: started on one file and reloaded with any
+    others (names C strings, nobody waiting at the moment of a reload), the table is exactly what
+    the last file names -/
+def loadAll (s : State) (live : Config) : List Config → State × Config
+  | [] => (s, live)
+  | f :: rest => loadAll (applyConfig s live f false).1 (applyConfig s live f false).2 rest
+
+theorem C17_services_loads : ∀ (files : List Config) (s : State) (live : Config), s.hasXq = true → Reflects s live.xq →
+    GoodSec live.xq → (∀ f ∈ files, ∀ n ∈ f.xq, NoNul n.name) →
+    Reflects (loadAll s live files).1 (loadAll s live files).2.xq
+  | [], _, _, _, h, _, _ => h
+  | f :: rest, s, live, hx, h, hl, hn => by
+    unfold loadAll
+    obtain ⟨h1, g1⟩ := C17_services_load s live f hx h hl (hn f (List.mem_cons_self ..))
+    exact C17_services_loads rest _ _ ((applyConfig_frame s live f false).1.trans hx) h1 g1
+      (fun f' hf' => hn f' (List.mem_cons_of_mem _ hf'))
+
+/-! ### the rule table over a whole history -/
+
+deriving instance ReflBEq, LawfulBEq for CNode
+
+/-- the rules a class section compiles to -/
+def compileSec (sec : List CNode) : List Rule := (sec.filter (!·.isString)).map compileRule
+
+/-- the daemon's rule table is the compilation of `cls`, up to hit counters -/
+def RulesReflect (s : State) (cls : List CNode) : Prop := RulesAre (eraseR (compileSec cls)) s
+
+theorem eraseR_inherit (new old : List Rule) : eraseR (inheritAssigned new old) = eraseR new := by
+  unfold eraseR
+  have e : ∀ (l : List Rule), l.map kernelR = l.map (fun r => { r with assigned := 0 }) := fun l => rfl
+  rw [e, e, C17_inherit_same_rules]
+
+/-- **C17, rule table, one load**: after a first load, and after a reload of a daemon whose table
+    reflected the live section, the table reflects the new file's section - whether or not the
+    module was told (it is told exactly when the merged section differs from the live one) -/
+theorem C17_rules_load (s : State) (live new : Config) (first : Bool) (hc : s.hasClass = true)
+    (h : first = true ∨ RulesReflect s live.cls) :
+    RulesReflect (applyConfig s live new first).1 (applyConfig s live new first).2.cls := by
+  unfold applyConfig
+  dsimp only
+  have f := deliverXq_frame { s with timeout := new.timeout } live.xq (mergeSection live.xq new.xq) first
+  dsimp only at f
+  have hrules : ∀ (s1 : State), s1.hasClass = true → s1.rules = s.rules →
+      RulesReflect (if s1.hasClass && (first || mergeSection live.cls new.cls != live.cls)
+        then classChanged s1 (mergeSection live.cls new.cls) else s1) (mergeSection live.cls new.cls) := by
+    intro s1 h1 hr
+    by_cases hd : (first || mergeSection live.cls new.cls != live.cls) = true
+    · simp only [h1, hd, Bool.and_self, if_true]
+      unfold RulesReflect RulesAre classChanged
+      exact eraseR_inherit _ _
+    · simp only [h1, hd, Bool.true_and, if_false, Bool.false_eq_true]
+      simp only [Bool.or_eq_true, not_or, Bool.not_eq_true, bne_eq_false_iff_eq] at hd
+      rcases h with h | h
+      · rw [h] at hd; exact absurd hd.1 (by simp)
+      · unfold RulesReflect RulesAre at h ⊢
+        rw [hr, hd.2]; exact h
+  split
+  · exact hrules _ (by rw [f.2.2.1]; exact hc) f.2.2.2.2.2.1
+  · exact hrules _ hc rfl
+
+/-- **C17 / C11, rule table, any history**: input lines and timer expiries - whatever they are, with
+    clients waiting or not - change nothing but hit counters -/
+theorem C17_rules_history (s : State) (cls : List CNode) (h : RulesReflect s cls) (ops : List Op)
+    (s' : State) (outs : List (List Bytes)) (hr : runOps s ops = .ok (s', outs)) : RulesReflect s' cls :=
+  runOps_rules ops s h s' outs hr
+
+/-- a session: histories of input and timer expiries, separated by reloads -/
+inductive Seg where
+  | ops (l : List Op)
+  | reload (cfg : Config)
+
+def runSession : State × Config → List Seg → M (State × Config)
+  | sc, [] => pure sc
+  | (s, live), .ops l :: rest => do
+    let (s1, _) ← runOps s l
+    runSession (s1, live) rest
+  | (s, live), .reload cfg :: rest => runSession (applyConfig s live cfg false) rest
+
+theorem applyConfig_hasClass (s : State) (live new : Config) (first : Bool) :
+    (applyConfig s live new first).1.hasClass = s.hasClass := (applyConfig_frame s live new first).2.1
+
+theorem runOps_hasClass : ∀ (ops : List Op) (s s' : State) (outs : List (List Bytes)), Inv s →
+    runOps s ops = .ok (s', outs) → s'.hasClass = s.hasClass ∧ Inv s'
+  | [], s, s', outs, hi, he => by
+    simp only [runOps, pure, Except.pure, Except.ok.injEq, Prod.mk.injEq] at he
+    obtain ⟨rfl, _⟩ := he; exact ⟨rfl, hi⟩
+  | op :: ops, s, s', outs, hi, he => by
+    simp only [runOps, bind, Except.bind] at he
+    split at he
+    · cases he
+    · rename_i v1 h1
+      obtain ⟨s1, o1⟩ := v1
+      dsimp only at he
+      split at he
+      · cases he
+      · rename_i v2 h2
+        obtain ⟨s2, os⟩ := v2
+        simp only [pure, Except.pure, Except.ok.injEq, Prod.mk.injEq] at he
+        obtain ⟨rfl, _⟩ := he
+        obtain ⟨i1, ss⟩ := stepOp_inv hi h1
+        obtain ⟨e2, i2⟩ := runOps_hasClass ops s1 s2 os i1 h2
+        exact ⟨e2.trans ss.2, i2⟩
+
+/-- a reload keeps the table invariant (it touches no request) -/
+theorem applyConfig_inv (s : State) (live new : Config) (first : Bool) (hi : Inv s) : Inv (applyConfig s live new first).1 := by
+  have f := applyConfig_frame s live new first
+  have r := applyConfig_reqs' s live new first
+  exact ⟨by rw [r]; exact hi.sorted, by rw [r]; exact hi.noResp, by rw [f.1, f.2.1]; exact hi.deps, by rw [f.2.2.1]; exact hi.accPos⟩
+
+/-- **C17 / C11, the rule table over a whole session**: from a daemon whose table reflects its live
+    class section, after any sequence of histories (input chunks, timer expiries) and reloads, the
+    table is the compilation of the class section of the last file loaded, up to hit counters -/
+theorem C17_rules_session : ∀ (segs : List Seg) (s : State) (live : Config) (s' : State) (live' : Config),
+    Inv s → s.hasClass = true → RulesReflect s live.cls → runSession (s, live) segs = .ok (s', live') →
+    RulesReflect s' live'.cls
+  | [], s, live, s', live', _, _, h, he => by
+    simp only [runSession, pure, Except.pure, Except.ok.injEq, Prod.mk.injEq] at he
+    obtain ⟨rfl, rfl⟩ := he; exact h
+  | .ops l :: rest, s, live, s', live', hi, hc, h, he => by
+    simp only [runSession, bind, Except.bind] at he
+    split at he
+    · cases he
+    · rename_i v hv
+      obtain ⟨s1, o1⟩ := v
+      dsimp only at he
+      obtain ⟨e1, i1⟩ := runOps_hasClass l s s1 o1 hi hv
+      exact C17_rules_session rest s1 live s' live' i1 (e1.trans hc) (C17_rules_history s live.cls h l s1 o1 hv) he
+  | .reload cfg :: rest, s, live, s', live', hi, hc, h, he => by
+    simp only [runSession] at he
+    have hl := C17_rules_load s live cfg false hc (Or.inr h)
+    exact C17_rules_session rest _ _ s' live' (applyConfig_inv s live cfg false hi)
+      ((applyConfig_hasClass s live cfg false).trans hc) hl he
+
+/-- … in particular from start-up on any file -/
+theorem C17_rules_from_boot (hasXq : Bool) (lim : Limits) (hacc : 0 < lim.account) (cfg : Config) (segs : List Seg)
+    (s' : State) (live' : Config) (hx : hasXq = true)
+    (he : runSession (applyConfig { hasXq := hasXq, hasClass := true, lim := lim } {} cfg true) segs = .ok (s', live')) :
+    RulesReflect s' live'.cls := by
+  have h0 : Inv ({ hasXq := hasXq, hasClass := true, lim := lim } : State) :=
+    ⟨by simp [ids], by simp, fun _ => hx, hacc⟩
+  have hi := applyConfig_inv _ {} cfg true h0
+  have hc : (applyConfig ({ hasXq := hasXq, hasClass := true, lim := lim } : State) {} cfg true).1.hasClass = true :=
+    (applyConfig_hasClass _ _ _ _).trans rfl
+  exact C17_rules_session segs _ _ s' live' hi hc (C17_rules_load _ {} cfg true rfl (Or.inl rfl)) he
+
+/-- the session theorem is about runs that exist: a start on one rule, no input, then a look at the table -/
+example : ∃ r, runSession (applyConfig ({ hasXq := true, hasClass := true } : State) {}
+    { cls := [{ name := b "a", isString := false, kids := [(b "class", b "users")] }] } true) [.ops []] = .ok r :=
+  ⟨_, rfl⟩
 
 /-- the hypotheses are met: the empty table of a fresh start, and a two-entry section -/
 example : TableOK [] ∧ NoRefs [] := ⟨⟨(fun x hx => by cases hx), (fun i j x y hx => by simp at hx)⟩, fun x hx => by cases hx⟩
